@@ -49,6 +49,7 @@ THEOREMS = [
     ("Kopf.Props.C16", "Kopf.C16.roundtrip_status_fresh"),
     ("Kopf.Props.C16", "Kopf.C16.roundtrip_smart"),
     ("Kopf.Props.C16", "Kopf.C16.roundtrip_diffbase"),
+    ("Kopf.Props.C16", "Kopf.C16.roundtrip_diffbase_status"),
     ("Kopf.Props.C16", "Kopf.C16.purge_complete_ann"),
     ("Kopf.Props.C16", "Kopf.C16.purge_complete_status"),
     ("Kopf.Props.C16", "Kopf.C16.purge_complete_smart"),
@@ -58,6 +59,7 @@ THEOREMS = [
     ("Kopf.Props.C16", "Kopf.C16.isolation_purge_status"),
     ("Kopf.Props.C16", "Kopf.C16.isolation_touch_ann"),
     ("Kopf.Props.C16", "Kopf.C16.isolation_fetch"),
+    ("Kopf.Props.C16", "Kopf.C16.isolation_other_handler"),
     ("Kopf.Props.C16", "Kopf.C16.other_prefix_disjoint"),
     ("Kopf.Props.C16", "Kopf.C16.own_names_under_prefix"),
     ("Kopf.Props.C16", "Kopf.C16.clear_removes_own"),
@@ -65,9 +67,11 @@ THEOREMS = [
     ("Kopf.Props.C16", "Kopf.C16.deterministic"),
     ("Kopf.Props.C16", "Kopf.C16.valid_name_v2"),
     ("Kopf.Props.C16", "Kopf.C16.valid_name_v1"),
+    ("Kopf.Props.C16", "Kopf.C16.valid_name_marked"),
     ("Kopf.Props.C16", "Kopf.C16.distinct"),
     ("Kopf.Props.C16", "Kopf.C16.distinct_short"),
     ("Kopf.Props.C16", "Kopf.C16.edge_witness"),
+    ("Kopf.Props.C16", "Kopf.C16.edge_witness_front"),
     ("Kopf.Props.C16", "Kopf.C16.sfx_witness"),
     ("Kopf.Props.C16", "Kopf.C16.v1_long_prefix_witness"),
     ("Kopf.Props.C16", "Kopf.C16.collision_witness"),
@@ -108,6 +112,7 @@ SIG_EDGE = {"site": "StorageKeyFormingConvention.make_v2_key", "shape": "name pa
 SIG_V1LONG = {"site": "StorageKeyFormingConvention.make_v1_key", "shape": "prefix of 55+ chars: v1 name part starts with '-' or exceeds 63"}
 SIG_DIGEST = {"site": "StorageKeyFormingConvention.make_suffix", "shape": "32-bit digest collision: distinct long ids sharing a prefix get the same annotation names"}
 SIG_SAFEFORM = {"site": "StorageKeyFormingConvention.make_safe_key", "shape": "distinct ids with the same safe form share one annotation"}
+SIG_V1NEG = {"site": "StorageKeyFormingConvention.make_v1_key", "shape": "negative v1 cut: the v1 name of an id is the v2 name of its safe form"}
 SIG_FORGED = {"site": "StorageKeyFormingConvention.make_v2_key", "shape": "short id equal to the hashed name of a long id shares its annotation"}
 
 
@@ -703,8 +708,9 @@ def classify_name(full: str, prefix: str, mk: str, which: str, problems: list[st
     return {"site": "make_keys", "shape": "invalid annotation name", "problems": problems, "which": which}
 
 
-def classify_sharing(mk: str, mo: str) -> dict:
-    """Two distinct (marked) ids whose records interfere: which known input class is it?"""
+def classify_sharing(mk: str, mo: str, leaves: Iterable[tuple[str, bool]] = ()) -> dict:
+    """Two distinct (marked) ids whose records interfere: which known input class is it?
+    `leaves` = (prefix, v1) of the annotation storages involved."""
     sk, so = mk.translate(SAFE_TABLE), mo.translate(SAFE_TABLE)
     if sk == so and len(mk) <= 63:
         return SIG_SAFEFORM
@@ -713,6 +719,13 @@ def classify_sharing(mk: str, mo: str) -> dict:
     for a, b in ((mk, mo), (mo, mk)):
         if len(a) <= 63 < len(b) and a.translate(SAFE_TABLE) == b.translate(SAFE_TABLE)[:56] + pinned_suffix(b):
             return SIG_FORGED
+    if sk == so and len(mk) > 63:
+        # same safe form, both hashed: the v2 names differ; only a negative v1 cut (prefix + '/' + suffix
+        # longer than 63, v1 enabled) that keeps exactly 56 characters makes one id's v1 name the other's v2 name
+        for prefix, v1 in leaves:
+            cut = 63 - (len(prefix) + 1) - 7
+            if v1 and cut < 0 and len(mk) + cut == 56 and (mk == sk or mo == so):
+                return SIG_V1NEG
     return {"site": "make_keys", "shape": "distinct handler ids interfere", "class": "unknown"}
 
 
@@ -869,7 +882,8 @@ def run_scenario(sc: dict, out: Out, with_driver: bool = True) -> None:
     if judge and r2[0] == "ok":
         if f2 != ["ok", None]:
             out.fail(f"after purge the record of {k!r} is still fetched: {f2!r}", {"site": "purge", "shape": "record still readable after purge"})
-        colliding = any(classify_sharing(mk, (o + "-ofDRS") if drs else o).get("class") != "unknown" for o in others)
+        lv = [(l.prefix, bool(l.v1)) for l in ann_leaves]
+        colliding = any(classify_sharing(mk, (o + "-ofDRS") if drs else o, lv).get("class") != "unknown" for o in others)
         anns2 = (body2.get("metadata") or {}).get("annotations") or {}
         for name in own_names:
             if name in anns2:
@@ -1109,7 +1123,8 @@ def check_isolation(out: Out, sc: dict, S: Any, op: str, k: str, mk: str, others
         now = call(S.fetch, key=o, body=Body(after))
         if jsonable(now) != jsonable(before_others.get(o)):
             mo = o + "-ofDRS" if drs else o
-            out.fail(f"{op} of {k!r} changes what handler {o!r} reads: {before_others.get(o)!r} → {now!r}", classify_sharing(mk, mo))
+            out.fail(f"{op} of {k!r} changes what handler {o!r} reads: {before_others.get(o)!r} → {now!r}",
+                     classify_sharing(mk, mo, [(d["prefix"], d["v1"]) for d in desc if d["t"] == "ann"]))
     # own-prefix annotations: only names of this handler (and the marker) may change
     ba = (before.get("metadata") or {}).get("annotations") or {}
     aa = (after.get("metadata") or {}).get("annotations") or {}
@@ -1193,9 +1208,15 @@ def process(scs: list[dict], with_driver: bool) -> dict:
     if with_driver and reqs:
         try:
             answers = leanio.Driver().ask(reqs, timeout=3000)
-        except leanio.LeanError as e:
-            res["driver_error"] = {"msg": str(e), "log": e.log[-2000:]}
-            return res
+        except leanio.LeanError:
+            # other checks build in the same tree concurrently: make sure the driver modules are
+            # built (under the lake lock) and ask once more before calling it a failure
+            leanio.lake_build(["Kopf.Drv.All"])
+            try:
+                answers = leanio.Driver().ask(reqs, timeout=3000)
+            except leanio.LeanError as e:
+                res["driver_error"] = {"msg": str(e), "log": e.log[-2000:]}
+                return res
         for (i, what, im), rq, ans in zip(metas, reqs, answers):
             res["comparisons"] += 1
             if leanio.canon(im) != leanio.canon(ans):
@@ -1226,7 +1247,11 @@ def fold(ctx: Ctx, res: dict) -> None:
     ctx.tie_comparisons += res["comparisons"]
     ctx.traces += res["comparisons"]
     for f in res["oracle"]:
-        if len(ctx.failures) < 400:
+        # keep a few failures per distinct signature (never let one class crowd out another)
+        sig = leanio.canon(f["signature"])
+        seen = ctx.extra.setdefault("_per_signature", {})
+        seen[sig] = seen.get(sig, 0) + 1
+        if seen[sig] <= 3:
             ctx.oracle_fail(f["what"], f["replay"], f["signature"])
     for t in res["tie"]:
         if sum(1 for f in ctx.failures if f.kind == "tie") < 50:
@@ -1311,9 +1336,10 @@ def pair_case(ctx: Ctx, data: dict) -> None:
     replay = {"kind": "pair", **{x: data[x] for x in data if x != "kind"}}
     if before != after:
         ctx.oracle_fail(f"storing the record of {b!r} changes what {a!r} reads: {before!r} → {after!r} (names {ka} / {kb})",
-                        replay, classify_sharing(a, b))
+                        replay, classify_sharing(a, b, [(s.prefix, bool(s.v1))]))
     elif len(a) > 63 and len(b) > 63 and a[:58] == b[:58] and ka[0] == kb[0]:
-        ctx.oracle_fail(f"distinct long ids sharing a prefix get the same annotation name {ka[0]!r}", replay, classify_sharing(a, b))
+        ctx.oracle_fail(f"distinct long ids sharing a prefix get the same annotation name {ka[0]!r}", replay,
+                        classify_sharing(a, b, [(s.prefix, bool(s.v1))]))
     outs = ctx.driver.ask([["C16.keys", {"prefix": s.prefix, "v1": bool(s.v1)}, sfx_table([a]), False, a],
                            ["C16.keys", {"prefix": s.prefix, "v1": bool(s.v1)}, sfx_table([b]), False, b]])
     ctx.compare("C16 keys", ["ok", ka], outs[0], replay)
@@ -1400,11 +1426,13 @@ def run(ctx: Ctx) -> None:
     restart_check(ctx, 150 if ctx.tier == "quick" else 1500)
     birthday(ctx, 1 << 18 if ctx.tier == "quick" else 1 << 20)
     run_pool(ctx, ctx.budget(5000, 300000), True, "gen")
+    ctx.extra["oracle_failures_by_signature"] = ctx.extra.pop("_per_signature", {})
 
 
 def search(ctx: Ctx, broken: list) -> None:
     """A proof or the correspondence is broken and the oracle saw nothing: larger budget, oracle only."""
     run_pool(ctx, ctx.budget(5000, 300000) * (10 if ctx.tier == "quick" else 2), False, "search")
+    ctx.extra["oracle_failures_by_signature"] = ctx.extra.pop("_per_signature", {})
 
 
 def replay(ctx: Ctx, data: dict) -> None:
